@@ -74,6 +74,7 @@ def gen(rng, facts):
                 if rng.random() < 0.3: cs.append(('resume', rng.randrange(nt)))
                 inj.append((y, v, cs))
             c.poll(inj)
+    c.mark_tail()
     for _ in range(5):
         for t in range(nt + 1): c.resume(t)
         c.tick(3 * g + 7)
